@@ -73,6 +73,12 @@ let () =
          let passes = List.map parse_pass (split '/' prog) in
          let adv g = let i = int_of_n g in z_of_int (if i < Array.length at then at.(i) else 0) in
          let l0 = List.map (fun x -> let g = n_of_int (int_of_string x) in mkslot g (adv g) Z0) (List.filter (fun x -> x <> "") (split ',' input)) in
+         (* "<n>r": right to left on a left-to-right font.  Pass::runGraphite reverses the stream before the first pass (no glyph of the compiled
+            fonts is a mark for reverseSlots: a plain reversal), the passes and the final positioning run on the reversed stream, and
+            Segment::finalise reverses the result back: slot i of the result is slot n-1-i of the passes' output *)
+         let rtl = String.length nsub > 0 && nsub.[String.length nsub - 1] = 'r' in
+         let nsub = if rtl then String.sub nsub 0 (String.length nsub - 1) else nsub in
+         let l0 = if rtl then List.rev l0 else l0 in
          (match run_passes_adj adv (nat_of_int (int_of_string nsub)) passes l0 with
           | None -> Printf.printf "%s R DIED\n" id
           | Some out ->
@@ -80,11 +86,13 @@ let () =
          let tbl = Hashtbl.create 16 in
          List.iter (fun (i, (x, y)) -> Hashtbl.replace tbl (int_of_n i) (int_of_z x, int_of_z y)) ps;
          let rec idx i = function [] -> [] | s :: r -> (i, s) :: idx (i + 1) r in
+         let n = List.length out in
+         let shown = if rtl then List.rev (idx 0 out) else idx 0 out in
          Printf.printf "%s R adv=%d %s\n" id (int_of_z (fst fin)) (String.concat ";" (List.map (fun (i, s) ->
            let (x, y) = (try Hashtbl.find tbl i with Not_found -> (0, 0)) in
            let rec nat_to_int = function O -> 0 | S n -> 1 + nat_to_int n in
-           Printf.sprintf "%d,%d,%d,%d,%d,%s" (int_of_n s.s_gid) (int_of_z s.s_adv) x y (match s.s_par with Some p -> nat_to_int p | None -> -1)
-             (String.concat "/" (List.map (fun u -> string_of_int (int_of_z u)) s.s_user))) (idx 0 out))))
+           Printf.sprintf "%d,%d,%d,%d,%d,%s" (int_of_n s.s_gid) (int_of_z s.s_adv) x y (match s.s_par with Some p -> (if rtl then n - 1 - nat_to_int p else nat_to_int p) | None -> -1)
+             (String.concat "/" (List.map (fun u -> string_of_int (int_of_z u)) s.s_user))) shown)))
        with Failure m -> Printf.printf "%s R UNPARSABLE %s\n" id m | Not_found -> Printf.printf "%s R UNPARSABLE\n" id)
      | [id; "gdlL"; nsub; prog; advs; input] ->
        (* the loop trace: per executed pass  /maxloop,mu0:  then  mu,lc,reset,live;  per iteration (the iteration in which the machine died is not reported: the engine returns before its hook) *)
